@@ -127,7 +127,7 @@ def run(ctx):
         elif init == "random":
             kw["initialize_with_kmeanspp"] = False
         drop = rng.choice([None, None, 1, 2, 3])
-        max_it = rng.choice([1, 2, 5, 10])
+        max_it = rng.choice([1, 2, 5, 10, 0])      # 0: only the final assignment to the initial means
         if outlier_stream:
             drop = rng.choice([1, 1, 2])
             max_it = 10
